@@ -228,6 +228,12 @@ func (w *Worker) cborMarshal(src iface) []value {
 		b := []value{uint64(0xF6)}
 		return b
 	}
+	// a non-nil pointer at the top level encodes as what it points to (as in real CBOR: Marshal(&x) == Marshal(x))
+	if pt, ok := src.t.Underlying().(*types.Pointer); ok {
+		if p, _ := src.v.(*value); p != nil {
+			src = iface{t: pt.Elem(), v: *p}
+		}
+	}
 	out := make([]value, 0, 64)
 	out = append(out, uint64(0xD9))
 	out = w.serialize(src.t, src.v, out, 0)
